@@ -94,10 +94,10 @@ def linear_in_var(idx, cache):
         return None
     if z3.is_mul(idx) and len(idx.children()) == 2:
         a, b = idx.children()
-        if z3.is_int_value(a) and a.as_long() == -1:
+        if z3.is_int_value(a) and a.as_long() != 0:
             r = linear_in_var(b, cache)
             if r and r[2] is None:
-                return (r[0], -r[1], None)
+                return (r[0], a.as_long() * r[1], None)
     if idx.decl().kind() == z3.Z3_OP_UMINUS:
         r = linear_in_var(idx.children()[0], cache)
         if r and r[2] is None:
@@ -226,6 +226,8 @@ class Inst:
                 val = gt if g is None else gt - g
                 if sg == -1:
                     val = -val
+                elif sg not in (1, -1):
+                    val = val / sg       # integer coefficient: any term is a sound instance; this one solves c*v + g == gt when divisible
                 val = z3.simplify(val)
                 cands[k][val.get_id()] = val
         for t in subterms(body, lambda x: z3.is_app(x) and x.decl().kind() == z3.Z3_OP_UNINTERPRETED and x.num_args() > 0):
@@ -241,6 +243,8 @@ class Inst:
                     val = gt if g is None else gt - g
                     if sg == -1:
                         val = -val
+                    elif sg not in (1, -1):
+                        val = val / sg
                     val = z3.simplify(val)
                     cands[k][val.get_id()] = val
         # range-guard bounds: forall v. (lo <= v and v < hi) -> ...  gives the candidates lo and hi-1 (first / last element facts)
